@@ -73,9 +73,18 @@ def render_fit(case):
                     and type(box.height) in (int, float):
                 # border box of a block in plain block flow, its own bottom decoration, the range of its items
                 nlines = sum(1 for c in box.children if isinstance(c, boxes.LineBox))
+                # (clone only) an allowed break between two in-flow block children after which the part above, closed by
+                # the repeated bottom decoration, fits on the page
+                deco = box.padding_bottom + box.border_bottom_width
+                kids = [c for c in box.children if isinstance(c, boxes.BlockBox) and c.is_in_normal_flow()]
+                fit_split = (box.style['box_decoration_break'] == 'clone' and len(kids) == len(box.children) and any(
+                    c1.style['break_after'] == 'auto' and c2.style['break_before'] == 'auto'
+                    and type(c1.height) in (int, float)
+                    and c1.border_box_y() + c1.border_height() + deco <= p.height + 1e-6
+                    for c1, c2 in zip(kids, kids[1:])))
                 blocks.append((box.border_box_y(), box.border_height(), start, len(items),
-                               box.padding_bottom + box.border_bottom_width, nlines,
-                               box.style['orphans'], box.style['widows'], box.style['break_inside']))
+                               deco, nlines,
+                               box.style['orphans'], box.style['widows'], box.style['break_inside'], fit_split))
         html = p.children[0]
         walk(html, True)
         for extra in p.children[1:]:
